@@ -345,7 +345,7 @@ class C06Check(core.Check):
     def budgets(self, tier):
         if tier == 'thorough':
             return {'runs': 60000, 'determinism': 100, 'wall': 3300}
-        return {'runs': 1500, 'determinism': 20, 'wall': 600}
+        return {'runs': 1200, 'determinism': 20, 'wall': 1800}
 
     def generate(self, rng, run_index, tier):
         G, S = gen_pair(rng, tier)
